@@ -2,7 +2,9 @@ PROP = {
     "level": "exploration",
     "technique": ("runtime monitors: (1) lattice run of the real LinearFeeFunction with per-call invariants; (2) real "
                   "TxPublisher driven block by block with a recording wallet that judges every transaction handed to "
-                  "testmempoolaccept / publish against exact integer re-computation of fee, weight, dust and budget; "
+                  "testmempoolaccept / publish against exact integer re-computation of fee, weight, dust and budget "
+                  "(from the transaction and the values of the generated inputs, never from lnd's estimator), every "
+                  "ErrNotEnoughBudget give-up against the harness' own rate x size; "
                   "(3) real UtxoSweeper (block handler, monitorFeeBumpResult, handleBumpEvent and its handlers) over the "
                   "real BudgetAggregator in a loop with the real TxPublisher over several blocks, faults injected at "
                   "the wallet/mempool boundary: the fee function and every transaction of every (re)grouped request "
@@ -11,12 +13,18 @@ PROP = {
     "level_text": ("Fee function: 4e5 (quick) / 1e8 (thorough) generated (ending rate, conf target 0..3000, estimator "
                    "answer incl. below floor / above max / error, explicit start, block pattern) runs; after every "
                    "Increment/IncreaseFeeRate: never decreases, never above the ending rate, start >= relay floor, "
-                   "equals the ending rate from conf target 1 on. Publisher: 2.4e4 / 3e6 generated sweeps (1-4 inputs incl. "
+                   "equals the ending rate from conf target 1 on. Publisher: 2.4e4 / 3e6 generated sweeps (1-5 inputs incl. "
                    "second-level style required outputs, wallet top-ups through BudgetInputSet, aux extra output, scripted "
-                   "mempool/publish answers, skipped/repeated heights, third-party/own spends); every tx handed to the "
+                   "mempool/publish answers, skipped/repeated heights, third-party/own spends; optional input attributes: "
+                   "required locktimes, relative timelocks (BlocksToMaturity), segwit-v0 and taproot witness types, and in "
+                   "~40% of the cases unconfirmed parents (UnconfParent: PRNG weight 1..4e5 wu, fee at a rate of zero / "
+                   "below / next to / above the starting rate, the relay floor and MaxFeeRate; one or several inputs, "
+                   "several outputs of one parent; half of them 330 sat anchors paid for by a wallet utxo or a further "
+                   "input), p2wpkh / p2tr / np2wkh wallet utxos); every tx handed to the "
                    "wallet: fee <= budget, fee*1000 <= MaxFeeRate*weight(signed tx), all inputs exactly once, no output "
                    "below dust, published replacements non-decreasing in fee rate, fee function at its ceiling from "
-                   "deadline-1 on. Regroup: 3e4 / 3e6 generated populations of 1-9 pending inputs (1-3 deadlines, "
+                   "deadline-1 on; a sweep given up with ErrNotEnoughBudget although the budget covers rate x size (with a "
+                   "non-dust change) counts as ceiling not reached. Regroup: 3e4 / 3e6 generated populations of 1-9 pending inputs (1-3 deadlines, "
                    "mixed budgets, Immediate, locktimes, exclusive groups, required outputs, no-deadline params, "
                    "MaxInputsPerTx 2..100, wallet utxos, inputs arriving in later blocks; about half the inputs carry "
                    "the rate of an earlier attempt, recorded through the sweeper's own markInputsPublishFailed or set "
@@ -27,7 +35,10 @@ PROP = {
                    "spend, not implemented, generic), third-party spends between blocks; for every input the rates "
                    "of the txs handed to the wallet (and of each fresh fee function) never fall below "
                    "min(previous rate, ceiling of the request); every tx: fee <= sum of the budgets of the inputs "
-                   "it spends, all inputs of the request exactly once."),
+                   "it spends, all inputs of the request exactly once; a request given up with ErrNotEnoughBudget "
+                   "although the budgets attached to its inputs cover rate x size counts as ceiling not reached "
+                   "(regroup_ceiling). The populations carry the same optional input attributes (relative timelocks, "
+                   "unconfirmed parents incl. shared ones and anchors) as the publisher's."),
     "level_note": ("Sampled. Inputs are harness inputs with real StandardWitnessTypes whose witnesses are crafted at the "
                    "type's size upper bound (worst-case signatures), so the signed weight equals lnd's estimate; shorter "
                    "real signatures raise the effective rate by <1% and are not modelled. The sweeper is driven "
@@ -40,16 +51,27 @@ PROP = {
                    "+carried-rate-lowered-by-failed-result) are reported at most 3 times per process each, the rest "
                    "is counted (regroup_decrease_*). The ceiling of a regrouped request "
                    "uses a BIP-141 weight model written in the harness (calibrated as a diagnostic against every tx "
-                   "built) with 8 wu + 1 sat/kw slack. CPFP parents are not generated (the bumper's fee ignores them)."),
+                   "built) with 8 wu + 1 sat/kw slack. The give-up oracles (pub_ceiling_by_deadline_minus_1 / "
+                   "regroup_ceiling, key gave-up-not-enough-budget-...) are event-triggered: they judge the rate the "
+                   "failed result reports for the retry (>= the rate of the failed attempt, so they err on the "
+                   "publisher's side) with that weight model, 8 wu + 1 sat slack, and only when a non-dust change is "
+                   "possible; on the unchanged tree they are evaluated a few dozen times per quick run. The known "
+                   "class KF-C18-2 (key +only-by-sub-dust-change-folded-into-fee) is restricted to excesses of less "
+                   "than one dust limit over the fee at the fee function's rate. A fifth of the wallet utxos on offer "
+                   "for top-ups are np2wkh (signed with the real 23 byte sigScript); violations of transactions "
+                   "spending one carry the key class +np2wkh-wallet-input (lnd's 48 wu over-estimate of such inputs, "
+                   "fixed in /repo 037394c)."),
     "design_ref": "DESIGN.md §3 C18",
     "rule": ("fee function: distinct (block pattern, width bucket, explicit start?, domain class, ending-rate bucket); "
              "publisher: a case is non-trivial when at least one tx was handed to the wallet; distinct (#inputs, "
              "#required outputs, via input set, wallet top-up, #published bucket, #replaced, #failed, #unknown-spend, "
-             "change script type, aux output); regroup: a population is non-trivial when the sweeper built at least "
+             "change script type, aux output, unconfirmed-parent class (none / never handed over / always at or above "
+             "the offered rate / below the offered rate / shared parent below the offered rate), relative timelock "
+             "present); regroup: a population is non-trivial when the sweeper built at least "
              "one request; distinct (#inputs bucket, #requests, MaxInputsPerTx, request mixing different earlier "
              "rates, earlier rate above the ceiling, wallet top-up, locktimes, exclusive, immediate, late arrivals, "
              "#requests with tx bucket, buckets of #failed / #fatal / #unknown-spend / #replaced results, #later-round "
-             "requests bucket)."),
+             "requests bucket, request with an unconfirmed parent)."),
     "assumptions": [
         "required outputs / aux outputs supplied by the caller are themselves not dust",
         "witnesses have the size upper bound of their witness type",
@@ -77,11 +99,25 @@ PROP = {
                 "quick": {"cases": 12000, "oracle_pub_budget_evals": 40000, "oracle_pub_maxrate_evals": 40000,
                           "oracle_pub_dust_evals": 40000, "oracle_pub_inputs_evals": 40000,
                           "oracle_pub_monotone_evals": 12000, "oracle_pub_ceiling_evals": 16000,
-                          "pub_cases_with_replacement": 3000, "pub_with_wallet_topup": 1100},
+                          "pub_cases_with_replacement": 3000, "pub_with_wallet_topup": 1100,
+                          "pub_cases_with_unconf_parent": 4700, "pub_cases_with_shared_unconf_parent": 800,
+                          "pub_txs_with_parent_below_offered_rate": 14000,
+                          "pub_txs_with_parents_at_or_above_offered_rate": 3500,
+                          "pub_cases_replaced_with_parent_below_offered_rate": 1100,
+                          "pub_cases_ceiling_checked_with_parent_below_offered_rate": 1100,
+                          "pub_cases_with_csv_input": 2900, "oracle_pub_gave_up_evals": 10,
+                          "pub_txs_with_np2wkh_input": 1700},
                 "thorough": {"cases": 1500000, "oracle_pub_budget_evals": 5000000, "oracle_pub_maxrate_evals": 5000000,
                              "oracle_pub_dust_evals": 5000000, "oracle_pub_inputs_evals": 5000000,
                              "oracle_pub_monotone_evals": 1500000, "oracle_pub_ceiling_evals": 2000000,
-                             "pub_cases_with_replacement": 360000, "pub_with_wallet_topup": 135000},
+                             "pub_cases_with_replacement": 360000, "pub_with_wallet_topup": 135000,
+                             "pub_cases_with_unconf_parent": 580000, "pub_cases_with_shared_unconf_parent": 100000,
+                             "pub_txs_with_parent_below_offered_rate": 1750000,
+                             "pub_txs_with_parents_at_or_above_offered_rate": 430000,
+                             "pub_cases_replaced_with_parent_below_offered_rate": 135000,
+                             "pub_cases_ceiling_checked_with_parent_below_offered_rate": 135000,
+                             "pub_cases_with_csv_input": 360000, "oracle_pub_gave_up_evals": 1200,
+                             "pub_txs_with_np2wkh_input": 210000},
             },
         },
         {
@@ -100,7 +136,11 @@ PROP = {
                           "regroup_results_UnknownSpend": 3600, "regroup_results_Fatal": 2000,
                           "oracle_regroup_monotone_evals": 490000, "oracle_regroup_monotone_over_time_evals": 440000,
                           "regroup_monotone_ceiling_corner_evals": 24000, "oracle_regroup_budget_evals": 300000,
-                          "oracle_regroup_inputs_evals": 300000},
+                          "oracle_regroup_inputs_evals": 300000,
+                          "regroup_inputs_with_unconf_parent": 13000, "regroup_requests_with_unconf_parent": 18000,
+                          "regroup_txs_with_parent_below_offered_rate": 46000,
+                          "regroup_txs_with_parents_at_or_above_offered_rate": 19000,
+                          "oracle_regroup_gave_up_evals": 3},
                 "thorough": {"cases": 1500000, "regroup_blocks": 16500000, "regroup_requests": 9000000,
                              "regroup_requests_in_later_rounds": 6000000,
                              "regroup_requests_with_retried_input": 5300000,
@@ -114,7 +154,12 @@ PROP = {
                              "oracle_regroup_monotone_evals": 49000000,
                              "oracle_regroup_monotone_over_time_evals": 44000000,
                              "regroup_monotone_ceiling_corner_evals": 2400000,
-                             "oracle_regroup_budget_evals": 30000000, "oracle_regroup_inputs_evals": 30000000},
+                             "oracle_regroup_budget_evals": 30000000, "oracle_regroup_inputs_evals": 30000000,
+                             "regroup_inputs_with_unconf_parent": 1300000,
+                             "regroup_requests_with_unconf_parent": 1800000,
+                             "regroup_txs_with_parent_below_offered_rate": 4600000,
+                             "regroup_txs_with_parents_at_or_above_offered_rate": 1900000,
+                             "oracle_regroup_gave_up_evals": 1000},
             },
         },
     ],
